@@ -532,3 +532,135 @@ Proof.
         rewrite rev_app_distr. apply OrdL_app. exists ox, oe. repeat split; auto. apply (Hmid ox Hox).
         destruct (WE (rev es) oe (or_intror eq_refl) Hoe) as [Z _]. rewrite wv_app in Hs. now apply oz_drop_zero in Hs.
 Qed.
+
+(* ------------------------------------------------------------------------------------------------ *)
+(* the children after the two passes, each with its status and its part (block) of the frontier o *)
+Definition item := ((pq * status) * list (list nat))%type.
+Definition ic (x : item) : pq := fst (fst x).
+Definition ist (x : item) : status := snd (fst x).
+Definition ib (x : item) : list (list nat) := snd x.
+
+(* UNALIGNED: every frontier has a set without v at both ends *)
+Definition U2 (v : nat) (t : pq) : Prop :=
+  forall o, Ord t o -> hd true (wv v o) = false /\ last (wv v o) true = false.
+
+Definition GoodItem (v : nat) (x : item) : Prop :=
+  proper (ic x) = true /\ StOK v (ic x) (ist x) /\ Ord (ic x) (ib x) /\ (ist x = SPartU -> U2 v (ic x)).
+
+Definition wd (v : nat) (x : item) : list bool := wv v (ib x).
+
+Lemma flat_map_wd v l : flat_map (wd v) l = wv v (flat_map ib l).
+Proof. induction l as [|x t IH]; simpl; [reflexivity|]. now rewrite IH, wv_app. Qed.
+
+Lemma wd_nonempty v x : GoodItem v x -> wd v x <> [].
+Proof.
+  intros (Hp & _ & Ho & _). pose proof (Ord_nonempty _ _ Hp Ho). unfold wd. destruct (ib x); [congruence|discriminate].
+Qed.
+
+Lemma Partial_word v c o : Partial v c -> Ord c o -> all_zero (wv v o) = false /\ all_one (wv v o) = false.
+Proof.
+  intros [HE HF] Ho. pose proof (Ord_perm c o Ho) as HP. split.
+  - destruct (all_zero (wv v o)) eqn:E; [|reflexivity]. exfalso. apply HE. apply wv_all_zero in E.
+    unfold PureE. eapply Permutation_Forall; [apply Permutation_sym; exact HP|exact E].
+  - destruct (all_one (wv v o)) eqn:E; [|reflexivity]. exfalso. apply HF. apply wv_all_one in E.
+    unfold PureF. eapply Permutation_Forall; [apply Permutation_sym; exact HP|exact E].
+Qed.
+
+(* the word of a child determines its status class *)
+Lemma item_class v x : GoodItem v x ->
+  match ist x with
+  | SFull => all_one (wd v x) = true /\ all_zero (wd v x) = false
+  | SEmpty => all_zero (wd v x) = true /\ all_one (wd v x) = false
+  | SPartA | SPartU => all_zero (wd v x) = false /\ all_one (wd v x) = false
+  end.
+Proof.
+  intros HG. pose proof (wd_nonempty v x HG) as Hne. destruct HG as (Hp & HS & Ho & _). unfold wd in *.
+  destruct (ist x); simpl in HS.
+  - pose proof (Ord_PureF_word v _ _ HS Ho) as H. split; [exact H|].
+    destruct (wv v (ib x)) as [|[|] w]; simpl in *; congruence.
+  - pose proof (Ord_PureE_word v _ _ HS Ho) as H. split; [exact H|]. now apply all_zero_not_one.
+  - destruct HS as [_ HP]. now apply (Partial_word v (ic x)).
+  - destruct HS as [_ HP]. now apply (Partial_word v (ic x)).
+Qed.
+
+Lemma item_az v x : GoodItem v x -> all_zero (wd v x) = true -> ist x = SEmpty.
+Proof. intros HG H. pose proof (item_class v x HG) as C. destruct (ist x); destruct C; congruence. Qed.
+Lemma item_ao v x : GoodItem v x -> all_one (wd v x) = true -> ist x = SFull.
+Proof. intros HG H. pose proof (item_class v x HG) as C. destruct (ist x); destruct C; congruence. Qed.
+
+Lemma zo_last w : zeros_ones w = true -> all_zero w = false -> last w true = true.
+Proof.
+  induction w as [|[|] w IH]; simpl; intros H1 H2; try congruence.
+  - destruct w as [|b w']; [reflexivity|]. clear IH H2. revert b H1. induction w' as [|b' w' IH']; intros b H1.
+    + simpl in *. now destruct b.
+    + simpl in H1. destruct b; [|discriminate]. apply (IH' b'). exact H1.
+  - destruct w as [|b w']; [simpl in H2; discriminate|]. now apply IH.
+Qed.
+Lemma oz_hd w : ones_zeros w = true -> all_zero w = false -> hd true w = true.
+Proof. destruct w as [|[|] w]; simpl; intros H1 H2; congruence. Qed.
+
+(* an UNALIGNED child can neither start nor end a run of sets containing v *)
+Lemma U2_not_zo v x : GoodItem v x -> ist x = SPartU -> zeros_ones (wd v x) = true -> False.
+Proof.
+  intros HG Hst Hz. pose proof (item_class v x HG) as C. rewrite Hst in C. destruct C as [C _].
+  destruct HG as (_ & _ & Ho & HU). destruct (HU Hst _ Ho) as [_ HL]. unfold wd in *.
+  rewrite (zo_last _ Hz C) in HL. discriminate.
+Qed.
+Lemma U2_not_oz v x : GoodItem v x -> ist x = SPartU -> ones_zeros (wd v x) = true -> False.
+Proof.
+  intros HG Hst Hz. pose proof (item_class v x HG) as C. rewrite Hst in C. destruct C as [C _].
+  destruct HG as (_ & _ & Ho & HU). destruct (HU Hst _ Ho) as [HL _]. unfold wd in *.
+  rewrite (oz_hd _ Hz C) in HL. discriminate.
+Qed.
+
+(* counting statuses over items *)
+Definition cnt (s : status) (l : list item) : nat := count_st s (map ist l).
+
+Lemma cnt_app s a b : cnt s (a ++ b) = cnt s a + cnt s b.
+Proof. unfold cnt. now rewrite map_app, count_st_app. Qed.
+Lemma cnt_cons s x l : cnt s (x :: l) = (if status_eqb s (ist x) then 1 else 0) + cnt s l.
+Proof. unfold cnt. simpl map. rewrite count_st_cons. destruct (status_eqb s (ist x)); reflexivity. Qed.
+Lemma cnt_nil s : cnt s [] = 0.
+Proof. reflexivity. Qed.
+Lemma cnt_all s0 s l : Forall (fun x => ist x = s0) l -> cnt s l = if status_eqb s s0 then length l else 0.
+Proof.
+  induction 1 as [|x t Hx Ht IH]; [now destruct (status_eqb s s0)|]. rewrite cnt_cons, IH, Hx.
+  destruct (status_eqb s s0); simpl; reflexivity.
+Qed.
+Lemma cnt_perm s l l' : Permutation l l' -> cnt s l = cnt s l'.
+Proof.
+  induction 1 as [|x l l' H IH|x y l|l l' l'' H1 IH1 H2 IH2]; auto.
+  - now rewrite !cnt_cons, IH.
+  - rewrite !cnt_cons. lia.
+  - congruence.
+Qed.
+Lemma cnt_total l : cnt SFull l + cnt SEmpty l + cnt SPartA l + cnt SPartU l = length l.
+Proof. unfold cnt. rewrite count_st_total. apply map_length. Qed.
+
+Lemma pick_st_items s l : pick_st s (map ic l) (map ist l) = map ic (filter (fun x => status_eqb s (ist x)) l).
+Proof.
+  induction l as [|x t IH]; [reflexivity|]. simpl map. rewrite pick_st_cons. simpl filter.
+  destruct (status_eqb s (ist x)); simpl; now rewrite IH.
+Qed.
+
+Lemma filter_perm {T} (f : T -> bool) l l' : Permutation l l' -> Permutation (filter f l) (filter f l').
+Proof.
+  induction 1 as [|x l l' H IH|x y l|l l' l'' H1 IH1 H2 IH2]; simpl; auto.
+  - destruct (f x); auto.
+  - destruct (f x), (f y); auto. apply perm_swap.
+  - eapply perm_trans; eassumption.
+Qed.
+
+Lemma OrdL_items l : Forall (fun x => Ord (ic x) (ib x)) l -> OrdL (map ic l) (flat_map ib l).
+Proof.
+  induction 1 as [|x t Hx Ht IH]; simpl; [now apply OrdL_nil|]. apply OrdL_cons. eauto.
+Qed.
+
+(* o is a frontier of the P-node on the children, and of every P-node on a rearrangement of them *)
+Lemma frontier_P v T T' cs : Forall (GoodItem v) T -> Permutation T T' -> Permutation (map ic T) cs ->
+  Ord (Node KP cs) (flat_map ib T').
+Proof.
+  intros HG HP Hcs. apply Ord_P. exists (map ic T'). split.
+  - transitivity (map ic T); [now apply Permutation_sym|now apply Permutation_map].
+  - apply OrdL_items. eapply Permutation_Forall; [exact HP|]. eapply Forall_impl; [|exact HG]. intros x H. apply H.
+Qed.
